@@ -4,6 +4,7 @@ package main
 // pipelined requests and any order in which the pool workers and the command worker finish.
 
 import (
+	"encoding/json"
 	"fmt"
 	"math/rand"
 	"sort"
@@ -271,6 +272,34 @@ func (g *c02Gen) try(i int) (gOp, bool) {
 	}
 }
 
+// parallelProgram draws n requests none of which has to wait for another: reads and writes on open handles plus at
+// most one request for the command worker; every completion order (n!) can be forced.
+func (g *c02Gen) parallelProgram(n int, idStyle string) gProg {
+	p := gProg{Server: g.server}
+	cmdAt := -1
+	if g.rng.Intn(3) > 0 {
+		cmdAt = g.rng.Intn(n)
+	}
+	for i := 0; i < n; i++ {
+		var o gOp
+		switch {
+		case i == cmdAt && g.server == "rs":
+			o = []gOp{{K: "stat", P: "s0"}, {K: "lstat", P: fmt.Sprintf("missing%d", i)}, {K: "mkdir", P: fmt.Sprintf("mk%d", i)}, {K: "fstat", H: "r0"},
+				{K: "readdir", H: "d0"}, {K: "open", P: "s1"}, {K: "statvfs", P: "s0"}, {K: "realpath", P: "s0"}, {K: "fsetstat", H: "w0", AF: wire.APerm}}[g.rng.Intn(9)]
+		case i == cmdAt:
+			o = []gOp{{K: "fstat", H: "r0"}, {K: "readdir", H: "d2"}, {K: "fsetstat", H: "w0", AF: wire.APerm}, {K: "readdir", H: "r1"}}[g.rng.Intn(4)]
+		case g.rng.Intn(5) < 3:
+			o = g.readOp(g.pick("r0", "r1", "x0"))
+		default:
+			o = g.writeOp(g.pick("w0", "x0"))
+		}
+		p.Ops = append(p.Ops, o)
+	}
+	gAssignIDs(&p, g.rng, idStyle)
+	p.Handles = gUsedHandles(p)
+	return p
+}
+
 // program draws a random program of n requests; idStyle: "seq", "rand", "same".
 func (g *c02Gen) program(n int, idStyle string) gProg {
 	p := gProg{Server: g.server}
@@ -346,38 +375,101 @@ func c02Fixed(server string) []gProg {
 }
 
 type c02Job struct {
-	cs     *gCase
-	orders int // number of feasible orders of the program (0 = not enumerated)
-	all    bool
+	Case   gCase `json:"case"`
+	Orders int   `json:"orders,omitempty"` // number of feasible orders of the program (0 = not enumerated)
+	All    bool  `json:"all,omitempty"`
+	First  bool  `json:"first,omitempty"` // first order of its program (the program is counted once)
 }
 
 func c02Orders(p gProg, limit int) ([][]int, bool) {
-	abs := (&gCase{Prog: p}).abs("/R")
-	rts := gRoutes(p, abs)
-	reqs := make([]simReq, len(rts))
-	for i := range rts {
-		reqs[i] = rts[i].Sim
-	}
-	return feasibleOrders(reqs, limit)
+	return feasibleOrders(c18Reqs(p), limit)
 }
 
 func c02RandomOrder(p gProg, rng *rand.Rand, style string) []int {
-	abs := (&gCase{Prog: p}).abs("/R")
-	rts := gRoutes(p, abs)
-	reqs := make([]simReq, len(rts))
-	for i := range rts {
-		reqs[i] = rts[i].Sim
+	return randomOrder(c18Reqs(p), rng, style)
+}
+
+func init() {
+	gSummarisers["c02"] = func(raw json.RawMessage, modelOK bool, scratch string) gSummary {
+		var job c02Job
+		if err := json.Unmarshal(raw, &job); err != nil {
+			return gSummary{Text: string(raw), Fails: []lib.Failure{{Kind: "tie", Key: "harness/job", What: err.Error()}}}
+		}
+		return c02Summarise(gExec(&job.Case), job, modelOK)
 	}
-	return randomOrder(reqs, rng, style)
+}
+
+func c02Summarise(run *gRun, job c02Job, modelOK bool) gSummary {
+	var s gSummary
+	cs := run.Case
+	p := cs.Prog
+	held := 0
+	failing := false
+	for k, rt := range run.Routes {
+		if rt.Sim.Gate != "" {
+			held++
+		}
+		if rt.HKind == "bogus" || rt.HKind == "stale" || rt.Mismatch || gIsMissing(p.Ops[k].P) {
+			failing = true
+		}
+	}
+	s.Text = p.shape() + fmt.Sprint(cs.Order, cs.Mode)
+	s.Nontrivial = held >= 2 || failing
+	hist := func(k string) { s.Hist = append(s.Hist, k) }
+	hist("server=" + p.Server)
+	hist(fmt.Sprintf("depth=%02d", len(p.Ops)))
+	hist("mode=" + cs.Mode + "/" + cs.Tag)
+	hist(fmt.Sprintf("held-calls=%02d", held))
+	for k, o := range p.Ops {
+		kind := o.K
+		switch {
+		case run.Routes != nil && run.Routes[k].Mismatch:
+			kind += "/wrong-kind-handle"
+		case run.Routes != nil && (run.Routes[k].HKind == "bogus" || run.Routes[k].HKind == "stale"):
+			kind += "/" + run.Routes[k].HKind + "-handle"
+		case gIsMissing(o.P):
+			kind += "/missing-path"
+		}
+		hist("request=" + kind)
+	}
+	if job.First && job.Orders > 0 {
+		hist(fmt.Sprintf("programs-with-all-orders-forced/orders=%03d%s", job.Orders, map[bool]string{true: "", false: "(cut)"}[job.All]))
+	}
+	for _, f := range gCheckCommon(run) {
+		if run.Fault != nil {
+			f.Input = map[string]any{"case": cs, "model_trace_so_far": run.Trace}
+		}
+		s.Fails = append(s.Fails, f)
+	}
+	if run.Fault == nil {
+		for _, fr := range run.Frames {
+			hist("reply=" + gTypeName(fr.Typ))
+		}
+		if cs.Mode == "gated" {
+			if held >= 3 && len(p.Ops) <= 6 {
+				s.Sample = map[string]any{"program": p.text(), "completion_order": cs.Order, "model_trace": run.Trace, "replies": c02Replies(run)}
+			}
+			if modelOK {
+				s.Lines = []string{"c02.run " + c02Cfg + " " + run.Trace}
+				s.Impl = []string{c02ImplSent(run)}
+			}
+		}
+	}
+	return s
 }
 
 func checkC02(c *lib.Ctx) {
 	r := c.R
-	r.Rule = "programs: hand-written depth-4 pipelines plus PRNG-drawn pipelines (depth 1…30) over 25 request kinds on open, closed-before, never-issued and wrong-kind handles and on existing/missing paths, ids sequential, descending, random or all equal; every instrumented call (request server: all handler methods; os-backed server: ReadAt/WriteAt/Stat/Readdir/Chmod of the opened files) is held on a gate and the harness opens the gates in a chosen order: ALL feasible completion orders for the small programs, PRNG-chosen orders (uniform, fifo, lifo, earliest-held-longest) for the deep ones, plus un-gated pipelined runs. A case = (server, program, completion order); non-trivial = at least two calls were held at the same time or a failing request is in the stream; distinct by (program shape, order)"
+	r.Rule = "programs: hand-written depth-4 pipelines, PRNG pipelines of 4…6 mutually independent requests (all 24/120/720 completion orders) and PRNG-drawn pipelines (depth 1…30) over 25 request kinds on open, closed-before, never-issued and wrong-kind handles and on existing/missing paths, ids sequential, descending, random or all equal; every instrumented call (request server: all handler methods; os-backed server: ReadAt/WriteAt/Stat/Readdir/Chmod of the opened files) is held on a gate and the harness opens the gates in a chosen order: ALL feasible completion orders for the small programs, PRNG-chosen orders (uniform, fifo, lifo, earliest-held-longest) for the deep ones, plus un-gated pipelined runs. A case = (server, program, completion order); non-trivial = at least two calls were held at the same time or a failing request is in the stream; distinct by (program shape, order)"
 	thorough := c.Tier == "thorough"
 	modelOK := gProbeModel(c, "c02.run "+c02Cfg+" -")
 	if !modelOK {
 		r.Skip("model comparison skipped: driver op `c02.run <cfg> <trace>` (lean/Sftp/Driver/C02.lean) is not served by the driver binary given with --model; the forced schedule of every case is recorded as a model trace in samples and failure inputs")
+	}
+	describe := func(raw json.RawMessage) (string, any) {
+		var j c02Job
+		json.Unmarshal(raw, &j)
+		return j.Case.Prog.Server, j.Case
 	}
 
 	if c.Replay != "" {
@@ -386,20 +478,22 @@ func checkC02(c *lib.Ctx) {
 			r.Fail(lib.Failure{Kind: "tie", Key: "replay", What: err.Error()})
 			return
 		}
-		run := gExec(&cs)
-		r.Case(cs.Prog.text(), true)
-		for _, f := range gCheckCommon(run) {
-			r.Fail(f)
+		sums := gRunBatches(c, "c02", []json.RawMessage{gJSON(c02Job{Case: cs})}, 1, modelOK, describe)
+		lines, impl := gMerge(r, sums, 4)
+		if modelOK {
+			c.Compare("c02", lines, impl)
 		}
-		r.Sample(map[string]any{"case": cs, "trace": run.Trace})
 		return
 	}
 
-	var jobs []c02Job
+	var jobs []json.RawMessage
+	nProg, nOrders := 0, 0
 	addAll := func(p gProg, limit int, tag string) {
 		ords, complete := c02Orders(p, limit)
-		for _, o := range ords {
-			jobs = append(jobs, c02Job{cs: &gCase{Prog: p, Mode: "gated", Order: o, Tag: tag}, orders: len(ords), all: complete})
+		nProg++
+		nOrders += len(ords)
+		for k, o := range ords {
+			jobs = append(jobs, gJSON(c02Job{Case: gCase{Prog: p, Mode: "gated", Order: o, Tag: tag}, Orders: len(ords), All: complete, First: k == 0}))
 		}
 	}
 	idStyles := []string{"seq", "rand", "desc", "same"}
@@ -407,113 +501,50 @@ func checkC02(c *lib.Ctx) {
 		for _, p := range c02Fixed(server) {
 			addAll(p, 24, "fixed-4")
 		}
-		nSmall, nMid, nDeep, nFree := 10, 60, 16, 24
+		nSmall, nPar4, nPar5, nPar6, nMid, nDeep, nFree := 20, 6, 2, 0, 250, 60, 80
 		if thorough {
-			nSmall, nMid, nDeep, nFree = 40, 1500, 500, 300
+			nSmall, nPar4, nPar5, nPar6, nMid, nDeep, nFree = 60, 20, 15, 8, 6000, 2000, 1000
 		}
 		for k := 0; k < nSmall; k++ {
 			addAll(newC02Gen(c.Rand, server).program(4, idStyles[k%4]), 24, "random-4")
 		}
+		for k := 0; k < nPar4; k++ {
+			addAll(newC02Gen(c.Rand, server).parallelProgram(4, idStyles[k%4]), 24, "independent-4")
+		}
+		for k := 0; k < nPar5; k++ {
+			addAll(newC02Gen(c.Rand, server).parallelProgram(5, idStyles[k%4]), 120, "independent-5")
+		}
+		for k := 0; k < nPar6; k++ {
+			addAll(newC02Gen(c.Rand, server).parallelProgram(6, idStyles[k%4]), 720, "independent-6")
+		}
 		if thorough {
 			for k := 0; k < 15; k++ {
-				addAll(newC02Gen(c.Rand, server).program(5, idStyles[k%4]), 120, "all-orders-5")
-			}
-			for k := 0; k < 15; k++ {
-				addAll(newC02Gen(c.Rand, server).program(6, idStyles[k%4]), 720, "all-orders-6")
+				addAll(newC02Gen(c.Rand, server).program(5, idStyles[k%4]), 120, "random-5")
+				addAll(newC02Gen(c.Rand, server).program(6, idStyles[k%4]), 720, "random-6")
 			}
 		}
 		styles := []string{"uniform", "uniform", "fifo", "lifo", "first-last"}
 		for k := 0; k < nMid; k++ {
 			p := newC02Gen(c.Rand, server).program(1+c.Rand.Intn(12), idStyles[c.Rand.Intn(4)])
 			for j := 0; j < 2; j++ {
-				jobs = append(jobs, c02Job{cs: &gCase{Prog: p, Mode: "gated", Order: c02RandomOrder(p, c.Rand, styles[c.Rand.Intn(len(styles))]), Tag: "random-order"}})
+				jobs = append(jobs, gJSON(c02Job{Case: gCase{Prog: p, Mode: "gated", Order: c02RandomOrder(p, c.Rand, styles[c.Rand.Intn(len(styles))]), Tag: "random-order"}}))
 			}
 		}
 		for k := 0; k < nDeep; k++ {
 			p := newC02Gen(c.Rand, server).program(13+c.Rand.Intn(18), idStyles[c.Rand.Intn(4)])
-			jobs = append(jobs, c02Job{cs: &gCase{Prog: p, Mode: "gated", Order: c02RandomOrder(p, c.Rand, styles[c.Rand.Intn(len(styles))]), Tag: "random-order-deep"}})
+			jobs = append(jobs, gJSON(c02Job{Case: gCase{Prog: p, Mode: "gated", Order: c02RandomOrder(p, c.Rand, styles[c.Rand.Intn(len(styles))]), Tag: "random-order-deep"}}))
 		}
 		for k := 0; k < nFree; k++ {
 			p := newC02Gen(c.Rand, server).program(1+c.Rand.Intn(30), idStyles[c.Rand.Intn(4)])
-			jobs = append(jobs, c02Job{cs: &gCase{Prog: p, Mode: "free", Tag: "ungated"}})
+			jobs = append(jobs, gJSON(c02Job{Case: gCase{Prog: p, Mode: "free", Tag: "ungated"}}))
 		}
 	}
-
-	cases := make([]*gCase, len(jobs))
-	for i := range jobs {
-		cases[i] = jobs[i].cs
-	}
-	var lines, impl []string
-	enumerated := map[string]int{}
-	i := 0
-	gParallel(cases, 12, func(run *gRun) {
-		job := jobs[i]
-		i++
-		cs := run.Case
-		p := cs.Prog
-		held := 0
-		failing := false
-		for k, rt := range run.Routes {
-			if rt.Sim.Gate != "" {
-				held++
-			}
-			if rt.HKind == "bogus" || rt.HKind == "stale" || rt.Mismatch || gIsMissing(p.Ops[k].P) {
-				failing = true
-			}
-		}
-		r.Case(p.shape()+fmt.Sprint(cs.Order, cs.Mode), held >= 2 || failing)
-		r.Hist("server=" + p.Server)
-		r.Hist(fmt.Sprintf("depth=%02d", len(p.Ops)))
-		r.Hist("mode=" + cs.Mode + "/" + cs.Tag)
-		r.Hist(fmt.Sprintf("held-calls=%02d", held))
-		for k, o := range p.Ops {
-			kind := o.K
-			switch {
-			case run.Routes != nil && run.Routes[k].Mismatch:
-				kind += "/wrong-kind-handle"
-			case run.Routes != nil && (run.Routes[k].HKind == "bogus" || run.Routes[k].HKind == "stale"):
-				kind += "/" + run.Routes[k].HKind + "-handle"
-			case gIsMissing(o.P):
-				kind += "/missing-path"
-			}
-			r.Hist("request=" + kind)
-		}
-		if job.orders > 0 {
-			key := p.text()
-			if enumerated[key] == 0 {
-				enumerated[key] = job.orders
-				r.Hist(fmt.Sprintf("orders-enumerated=%03d%s", job.orders, map[bool]string{true: "(all)", false: "(cut)"}[job.all]))
-			}
-		}
-		for _, f := range gCheckCommon(run) {
-			if f.Input != nil {
-				f.Input = map[string]any{"case": cs, "trace": run.Trace}
-				if run.Fault == nil {
-					f.Input = cs
-				}
-			}
-			r.Fail(f)
-		}
-		if run.Fault == nil {
-			for _, fr := range run.Frames {
-				r.Hist("reply=" + gTypeName(fr.Typ))
-			}
-			if cs.Mode == "gated" {
-				if len(r.Samples) < 4 && held >= 3 {
-					r.Sample(map[string]any{"program": p.text(), "completion_order": cs.Order, "model_trace": run.Trace, "replies": c02Replies(run)})
-				}
-				if modelOK {
-					lines = append(lines, "c02.run "+c02Cfg+" "+run.Trace)
-					impl = append(impl, c02ImplSent(run))
-				}
-			}
-		}
-	})
+	sums := gRunBatches(c, "c02", jobs, 2000, modelOK, describe)
+	lines, impl := gMerge(r, sums, 4)
 	if modelOK {
 		c.Compare("c02", lines, impl)
 	}
-	nProg := len(enumerated)
-	r.Note("%d programs had all their feasible completion orders enumerated and forced (%d orders in total)", nProg, sumValues(enumerated))
+	r.Note("%d programs had all their feasible completion orders enumerated and forced (%d orders in total)", nProg, nOrders)
 
 	c02EndOfStream(c, modelOK)
 }
